@@ -8,6 +8,7 @@ mod pibdsim;
 mod poolsim;
 mod refmodel;
 mod rng;
+mod schedsim;
 mod sim;
 mod storesim;
 mod txhsim;
@@ -103,6 +104,7 @@ fn main() {
 				Some("txhsim") => txhsim::replay(rp),
 				Some("poolsim") => poolsim::replay(rp),
 				Some("pibdsim") => pibdsim::replay(rp),
+				Some("schedsim") => schedsim::replay(rp),
 				Some("wiresim") => {
 					if rp["property"].as_str() == Some("C11") {
 						wiresim::replay_c11(rp)
